@@ -50,6 +50,16 @@ PRIMITIVE_OK = re.compile(r"^(float|int|add|sub|mul|div|sqrt|opp|abs|eqb|ltb|leb
                           r"PrimFloat\.\w+|PrimInt63\.\w+|Uint63\.\w+)$")
 
 
+# Coq.Floats.FloatAxioms / Uint63Axioms names as Print Assumptions prints them (unqualified)
+STD_FLOAT_AXIOMS = {
+    "mul_spec", "ltb_spec", "leb_spec", "eqb_spec", "add_spec", "sub_spec", "opp_spec", "abs_spec",
+    "div_spec", "sqrt_spec", "compare_spec", "of_uint63_spec", "Prim2SF_valid", "SF2Prim_Prim2SF",
+    "Prim2SF_SF2Prim", "normfr_mantissa_spec", "frshiftexp_spec", "ldshiftexp_spec", "next_up_spec",
+    "next_down_spec", "classify_spec", "sig_forall_dec", "sig_not_dec", "functional_extensionality_dep",
+    "Leibniz.Equal.equal_spec",
+}
+
+
 def log(*a):
     print(*a, file=sys.stderr, flush=True)
 
@@ -226,6 +236,7 @@ def check_props(spec):
                 axioms.append(m.group(1))
     axioms = sorted(set(axioms))
     unexpected = [a for a in axioms if not (a.startswith(STD_AXIOM_PREFIXES) or PRIMITIVE_OK.match(a)
+                                            or a in STD_FLOAT_AXIOMS
                                             or a in spec.get("allowed_axioms", []))]
     nprint = len(re.findall(r"Print\s+Assumptions", src))
     return {"ok": not unexpected, "theorems": theorems, "axioms": axioms, "unexpected": unexpected,
